@@ -152,4 +152,29 @@ WinNorm(p) ==
       RECURSIVE J(_)
       J(q) == IF q = <<>> THEN <<>> ELSE IF Len(q) = 1 THEN q[1] ELSE q[1] \o <<BSL>> \o J(Tail(q))
   IN IF prefix = <<>> /\ kept = <<>> THEN <<DOT>> ELSE prefix \o J(kept)
+
+---------------------------------------------------------------------------
+(* network.domain_is_false_positive, rule for rule (C11: "outside the documented false-positive shapes").  rootF / tldF are
+   the two tables of variable-name roots and endings (lower-case byte strings; pinned snapshot in domain_fpos_pinned.json). *)
+ITERATOR  == <<105, 116, 101, 114, 97, 116, 111, 114>>
+NEXT_     == <<110, 101, 120, 116>>
+THISDOT   == <<116, 104, 105, 115, 46>>
+PROTOTYPE == <<112, 114, 111, 116, 111, 116, 121, 112, 101>>
+\* re.match(b"[a-z]+[.][A-Z][a-z]+", d): a prefix of d (not all of it) is lower-case letters, a dot, one upper-case letter, lower-case letters
+AttributeAccess(d) ==
+  LET n == Len(d)
+      run == {k \in 1..n : \A i \in 1..k : IsLowerB(d[i])}          \* lengths of all-lower-case prefixes
+  IN \E k \in run : k + 3 <= n /\ d[k+1] = DOT /\ IsUpperB(d[k+2]) /\ IsLowerB(d[k+3])
+FalsePositiveDomain(d, rootF, tldF) ==
+  LET low == Tup(Lower(d))
+      labels == SplitAt(low, DOT)
+      root == labels[1]
+      tld == labels[Len(labels)]
+  IN \/ Len(labels) < 2
+     \/ (tld = NEXT_ /\ Find(low, ITERATOR, 0) >= 0)
+     \/ AttributeAccess(d)
+     \/ (tld \in tldF /\ (root \in rootF \/ Len(root) = 1))
+     \/ (Len(low) >= 5 /\ SubSeq(low, 1, 5) = THISDOT)
+     \/ (Len(labels) = 3 /\ labels[2] = PROTOTYPE /\ Len(root) < 3 /\ Len(tld) < 3)
+     \* (a seventh rule in the code - names starting with "lib" under ".so" - compares bytes with a str and can never fire: as coded, absent)
 =============================================================================
